@@ -125,6 +125,8 @@ pub tracked struct Trace {
     pub ghost next_id: int,
     /// channel identities allocated so far
     pub ghost chans: Set<int>,
+    /// ids of the resolved target map handed to `TargetActors::new` (constant)
+    pub ghost all: Set<TargetId>,
 }
 
 /// the inbox deliveries that forwarding every `MessageActor { dest: Target(t), msg }` of `log` produces
@@ -334,12 +336,28 @@ pub fn unbounded_ch<T>(Tracked(tr): Tracked<&mut Trace>) -> (r: (Sender<T>, Rece
 
 // ===========================================================================
 // launch_target_actor
+/// the trace effect of one successful launch: one more task, its inbox and termination channel are
+/// fresh and registered, nothing delivered / terminated / joined
+pub open spec fn launched_one(t0: Trace, t1: Trace, j: JoinHandle<()>, h: TargetActorHandleSet) -> bool {
+    &&& t1 == (Trace {
+            launched: t0.launched.push(t1.launched.last()),
+            inbox_of: t0.inbox_of.insert(h.target_actor_input_sender.chan(), t1.launched.last().id),
+            term_of: t0.term_of.insert(h.termination_sender.chan(), j.task()),
+            next_id: t0.next_id + 1,
+            chans: t1.chans,
+            watchers: t1.watchers,
+            ..t0 })
+    &&& t1.launched.len() == t0.launched.len() + 1
+    &&& j.task() == t0.next_id
+    &&& !t0.chans.contains(h.target_actor_input_sender.chan()) && !t0.chans.contains(h.termination_sender.chan())
+    &&& h.target_actor_input_sender.chan() != h.termination_sender.chan()
+    &&& t0.chans.subset_of(t1.chans) && t1.chans.contains(h.target_actor_input_sender.chan()) && t1.chans.contains(h.termination_sender.chan())
+}
 // ===========================================================================
 //@fn src/engine/target_actor/mod.rs launch_target_actor ret=r
 //@contract
     ensures
-        r matches Ok((j, h)) ==> final(tr).launched == old(tr).launched.push(final(tr).launched.last()),
-        r matches Ok((j, h)) ==> final(tr).launched.len() == old(tr).launched.len() + 1,
+        r matches Ok((j, h)) ==> launched_one(*old(tr), *final(tr), j, h),
         /*[C08.launch-wiring,C01.relay]*/ r matches Ok((j, h)) ==> final(tr).launched.last().id == target.meta().id,
         /*[C08.launch-wiring]*/ r matches Ok((j, h)) ==> final(tr).launched.last().helper_meta == target.meta(),
         /*[C08.launch-wiring]*/ r matches Ok((j, h)) ==> final(tr).launched.last().kind == target.kind_no(),
@@ -348,20 +366,315 @@ pub fn unbounded_ch<T>(Tracked(tr): Tracked<&mut Trace>) -> (r: (Sender<T>, Rece
         /*[C08.launch-wiring]*/ r matches Ok((j, h)) ==> final(tr).launched.last().out == target_actor_output_sender.chan(),
         /*[C08.launch-wiring,C10.terminate-all]*/ r matches Ok((j, h)) ==> final(tr).launched.last().task == j.task(),
         /*[C04.nonblocking,C10.signal]*/ r matches Ok((j, h)) ==> !h.target_actor_input_sender.bounded(),
-        r matches Ok((j, h)) ==> final(tr).inbox_of == old(tr).inbox_of.insert(h.target_actor_input_sender.chan(), target.meta().id),
-        r matches Ok((j, h)) ==> final(tr).term_of == old(tr).term_of.insert(h.termination_sender.chan(), j.task()),
         /*[C08.no-inval-oneshot]*/ r matches Ok((j, h)) ==> (watch_option is Disabled ==> h._watcher is None && final(tr).watchers == old(tr).watchers),
         /*[C06.watch-inputs]*/ r matches Ok((j, h)) ==> (watch_option is Enabled ==> (h._watcher is Some <==> !(target is Aggregate))),
         /*[C06.watch-inputs]*/ r matches Ok((j, h)) ==> (h._watcher is Some ==> final(tr).watchers.len() > 0 && final(tr).watchers.last() == (target.meta().id, final(tr).launched.last().inval) && h._target_invalidated_sender.chan() == final(tr).launched.last().inval),
-        r matches Ok((j, h)) ==> final(tr).delivered == old(tr).delivered && final(tr).term_sent == old(tr).term_sent && final(tr).joined == old(tr).joined,
-        r matches Ok((j, h)) ==> final(tr).inlog == old(tr).inlog && final(tr).awaited_signal == old(tr).awaited_signal && final(tr).term_seen == old(tr).term_seen,
-        r matches Ok((j, h)) ==> final(tr).next_id == old(tr).next_id + 1,
-        r matches Ok((j, h)) ==> !old(tr).chans.contains(h.target_actor_input_sender.chan()) && !old(tr).chans.contains(h.termination_sender.chan()),
-        r matches Ok((j, h)) ==> h.target_actor_input_sender.chan() != h.termination_sender.chan(),
-        r matches Ok((j, h)) ==> old(tr).chans.subset_of(final(tr).chans) && final(tr).chans.contains(h.target_actor_input_sender.chan()) && final(tr).chans.contains(h.termination_sender.chan()),
-        /*[C08.launch-once]*/ r is Err ==> final(tr).launched == old(tr).launched && final(tr).inbox_of == old(tr).inbox_of && final(tr).term_of == old(tr).term_of
-            && final(tr).delivered == old(tr).delivered && final(tr).term_sent == old(tr).term_sent && final(tr).joined == old(tr).joined
-            && final(tr).inlog == old(tr).inlog && final(tr).next_id == old(tr).next_id && old(tr).chans.subset_of(final(tr).chans),
+        /*[C08.launch-once]*/ r is Err ==> *final(tr) == (Trace { chans: final(tr).chans, watchers: final(tr).watchers, ..*old(tr) }) && old(tr).chans.subset_of(final(tr).chans),
+        /*[C08.no-inval-oneshot]*/ r is Err && watch_option is Disabled ==> final(tr).watchers == old(tr).watchers,
 //@end
+
+// ===========================================================================
+// TargetActors
+// ===========================================================================
+pub open spec fn handle_ok(h: TargetActorHandleSet, id: TargetId, tr: Trace) -> bool {
+    &&& tr.inbox_of.contains_key(h.target_actor_input_sender.chan())
+    &&& /*C01.relay*/ tr.inbox_of[h.target_actor_input_sender.chan()] == id
+    &&& /*C04.nonblocking*/ !h.target_actor_input_sender.bounded()
+    &&& tr.term_of.contains_key(h.termination_sender.chan())
+    &&& tr.chans.contains(h.target_actor_input_sender.chan()) && tr.chans.contains(h.termination_sender.chan())
+}
+
+impl TargetActors {
+    /// what `terminate` needs: every launched task has its handle set and its join handle
+    pub open spec fn wf_handles(&self, tr: Trace) -> bool {
+        &&& forall|id: TargetId| #![trigger self.target_actor_handles@.contains_key(id)] #![trigger self.target_actor_handles@[id]]
+                self.target_actor_handles@.contains_key(id) ==> handle_ok(self.target_actor_handles@[id], id, tr)
+        &&& tr.launched.len() == self.target_actor_handles@.len()
+        &&& tr.launched.len() == self.target_actor_join_handles@.len()
+        &&& forall|i: int| #![trigger tr.launched[i]] 0 <= i < tr.launched.len() ==> {
+                &&& self.target_actor_handles@.contains_key(tr.launched[i].id)
+                &&& tr.term_of.contains_key(tr.launched[i].term) && tr.term_of[tr.launched[i].term] == tr.launched[i].task
+                &&& self.target_actor_handles@[tr.launched[i].id].termination_sender.chan() == tr.launched[i].term
+                &&& self.target_actor_join_handles@[i].task() == tr.launched[i].task
+                &&& tr.launched[i].out == self.target_actor_output_sender.chan()
+                &&& tr.launched[i].task < tr.next_id
+            }
+        &&& forall|c: int| #![trigger tr.inbox_of.contains_key(c)] tr.inbox_of.contains_key(c) ==> tr.chans.contains(c)
+        &&& forall|c: int| #![trigger tr.term_of.contains_key(c)] tr.term_of.contains_key(c) ==> tr.chans.contains(c)
+    }
+    /// the resolved targets are partitioned into "not launched yet" and "launched" [C08.launch-once]
+    pub open spec fn wf(&self, tr: Trace) -> bool {
+        let all = tr.all;
+        &&& self.wf_handles(tr)
+        &&& forall|id: TargetId| #![trigger self.targets@.contains_key(id)] self.targets@.contains_key(id) ==> !self.target_actor_handles@.contains_key(id) && all.contains(id) && self.targets@[id].meta().id == id
+        &&& forall|id: TargetId| #![trigger all.contains(id)] all.contains(id) ==> self.targets@.contains_key(id) || self.target_actor_handles@.contains_key(id)
+        &&& forall|id: TargetId| #![trigger self.target_actor_handles@.contains_key(id)] self.target_actor_handles@.contains_key(id) ==> all.contains(id)
+    }
+    pub open spec fn same_config(&self, o: &TargetActors) -> bool {
+        self.watch_option == o.watch_option && self.target_actor_output_sender.chan() == o.target_actor_output_sender.chan()
+    }
+
+//@fn src/engine/target_actors.rs TargetActors::new ret=r
+//@contract
+    ensures
+        /*[C08.launch-once]*/ r.targets == targets && r.target_actor_handles@ == Map::<TargetId, TargetActorHandleSet>::empty() && r.target_actor_join_handles@ == Seq::<JoinHandle<()>>::empty(),
+        r.watch_option == watch_option, r.target_actor_output_sender == target_actor_output_sender,
+//@pre
+        broadcast use group_keys;
+        broadcast use vstd::std_specs::hash::group_hash_axioms;
+//@end
+
+//@fn src/engine/target_actors.rs TargetActors::get_target_actor_handles ret=r
+//@contract
+    requires
+        old(self).wf(*old(tr)),
+        /*[C04.nopanic]*/ old(tr).all.contains(*target_id),
+    ensures
+        final(self).same_config(old(self)),
+        r is Ok ==> final(self).wf(*final(tr)),
+        final(self).wf_handles(*final(tr)),
+        r matches Ok(h) ==> final(self).target_actor_handles@.contains_key(*target_id) && *h == final(self).target_actor_handles@[*target_id],
+        /*[C08.launch-once]*/ old(self).target_actor_handles@.contains_key(*target_id) ==> *final(tr) == *old(tr) && final(self).target_actor_handles == old(self).target_actor_handles && r is Ok,
+        /*[C08.launch-once]*/ !old(self).target_actor_handles@.contains_key(*target_id) && r is Ok ==> final(tr).launched.len() == old(tr).launched.len() + 1 && final(tr).launched.last().id == *target_id,
+        final(tr).delivered == old(tr).delivered, final(tr).inlog == old(tr).inlog, final(tr).term_sent == old(tr).term_sent, final(tr).joined == old(tr).joined,
+        final(tr).awaited_signal == old(tr).awaited_signal, final(tr).term_seen == old(tr).term_seen, final(tr).all == old(tr).all,
+        /*[C08.no-inval-oneshot]*/ old(self).watch_option is Disabled ==> final(tr).watchers == old(tr).watchers,
+//@pre
+        broadcast use group_keys;
+        broadcast use vstd::std_specs::hash::group_hash_axioms;
+//@end
+
+//@fn src/engine/target_actors.rs TargetActors::send ret=r
+//@contract
+    requires
+        old(self).wf(*old(tr)),
+        /*[C04.nopanic]*/ old(tr).all.contains(*target_id),
+    ensures
+        final(self).same_config(old(self)),
+        r is Ok ==> final(self).wf(*final(tr)),
+        final(self).wf_handles(*final(tr)),
+        /*[C01.relay,C04.relay-forward,C06.relay-watch]*/ r is Ok ==> final(tr).delivered == old(tr).delivered.push((*target_id, msg)),
+        r is Err ==> final(tr).delivered == old(tr).delivered,
+        final(tr).inlog == old(tr).inlog, final(tr).term_sent == old(tr).term_sent, final(tr).joined == old(tr).joined,
+        final(tr).awaited_signal == old(tr).awaited_signal, final(tr).term_seen == old(tr).term_seen, final(tr).all == old(tr).all,
+        /*[C08.no-inval-oneshot]*/ old(self).watch_option is Disabled ==> final(tr).watchers == old(tr).watchers,
+//@end
+
+//@fn src/engine/target_actors.rs TargetActors::request_target ret=r
+//@contract
+    requires
+        old(self).wf(*old(tr)),
+        /*[C04.nopanic]*/ old(tr).all.contains(*target_id),
+    ensures
+        final(self).same_config(old(self)),
+        r is Ok ==> final(self).wf(*final(tr)),
+        final(self).wf_handles(*final(tr)),
+        /*[C04.root-request]*/ r is Ok ==> final(tr).delivered == old(tr).delivered
+            .push((*target_id, ActorInputMessage::Requested { kind: ExecutionKind::Build, requester: ActorId::Root }))
+            .push((*target_id, ActorInputMessage::Requested { kind: ExecutionKind::Service, requester: ActorId::Root })),
+        final(tr).inlog == old(tr).inlog, final(tr).term_sent == old(tr).term_sent, final(tr).joined == old(tr).joined,
+        final(tr).awaited_signal == old(tr).awaited_signal, final(tr).term_seen == old(tr).term_seen, final(tr).all == old(tr).all,
+        /*[C08.no-inval-oneshot]*/ old(self).watch_option is Disabled ==> final(tr).watchers == old(tr).watchers,
+//@pre
+        let ghost tid = *target_id;
+//@after 0 `let handles = self.get_target_actor_handles(target_id)?;`
+        let ghost t1 = *tr;
+        let ghost d0 = tr.delivered;
+//@loop 0 binder=it
+            invariant
+                it.seq().len() == 2 && *it.seq()[0] == ExecutionKind::Build && *it.seq()[1] == ExecutionKind::Service,
+                handle_ok(*handles, tid, t1),
+                *tr == (Trace { delivered: tr.delivered, ..t1 }),
+                it.index@ == 0 ==> tr.delivered == d0,
+                it.index@ == 1 ==> tr.delivered == d0.push((tid, ActorInputMessage::Requested { kind: ExecutionKind::Build, requester: ActorId::Root })),
+                it.index@ == 2 ==> tr.delivered == d0.push((tid, ActorInputMessage::Requested { kind: ExecutionKind::Build, requester: ActorId::Root })).push((tid, ActorInputMessage::Requested { kind: ExecutionKind::Service, requester: ActorId::Root })),
+//@end
+
+//@fn src/engine/target_actors.rs TargetActors::terminate
+//@contract
+    requires
+        self.wf_handles(*old(tr)),
+    ensures
+        final(tr).launched == old(tr).launched,
+        /*[C10.terminate-all]*/ forall|i: int| #![trigger final(tr).launched[i]] 0 <= i < final(tr).launched.len() ==> final(tr).term_sent.contains(final(tr).launched[i].task),
+        /*[C10.terminate-all]*/ forall|i: int| #![trigger final(tr).launched[i]] 0 <= i < final(tr).launched.len() ==> final(tr).joined.contains(final(tr).launched[i].task),
+//@pre
+        broadcast use group_keys;
+        broadcast use vstd::std_specs::hash::group_hash_axioms;
+        let ghost jh = self.target_actor_join_handles@;
+        let ghost hs = self.target_actor_handles@;
+//@after 0 `future::join_all(self.target_actor_join_handles)`
+        proof {
+            assert forall|i: int| 0 <= i < tr.launched.len() implies tr.joined.contains(#[trigger] tr.launched[i].task) by {
+                assert(jh.map_values(|h: JoinHandle<()>| h.task())[i] == tr.launched[i].task);
+            }
+            assert forall|i: int| 0 <= i < tr.launched.len() implies tr.term_sent.contains(#[trigger] tr.launched[i].task) by {
+                assert(hs.contains_key(tr.launched[i].id));
+            }
+        }
+//@end
+
+//@fn src/engine/target_actors.rs TargetActors::send_termination_message
+//@contract
+    requires
+        forall|id: TargetId| #![trigger target_actor_handles@[id]] target_actor_handles@.contains_key(id) ==> old(tr).term_of.contains_key(target_actor_handles@[id].termination_sender.chan()),
+    ensures
+        *final(tr) == (Trace { term_sent: final(tr).term_sent, ..*old(tr) }),
+        /*[C10.terminate-all]*/ forall|id: TargetId| #![trigger target_actor_handles@[id]] target_actor_handles@.contains_key(id) ==> final(tr).term_sent.contains(old(tr).term_of[target_actor_handles@[id].termination_sender.chan()]),
+//@pre
+        broadcast use group_keys;
+        broadcast use vstd::std_specs::hash::group_hash_axioms;
+        broadcast use lemma_take_all;
+//@loop 0 binder=it
+            invariant
+                it.seq().unref().to_set() == target_actor_handles@.values(),
+                *tr == (Trace { term_sent: tr.term_sent, ..*old(tr) }),
+                forall|i: int| #![trigger it.seq()[i]] 0 <= i < it.index@ ==> tr.term_sent.contains(old(tr).term_of[it.seq()[i].termination_sender.chan()]),
+                forall|id: TargetId| #![trigger target_actor_handles@[id]] target_actor_handles@.contains_key(id) ==> old(tr).term_of.contains_key(target_actor_handles@[id].termination_sender.chan()),
+//@loopbody
+            proof {
+                assert(it.seq().unref().to_set().contains(*handles)) by {
+                    assert(it.seq().unref()[it.index@ as int] == *handles);
+                }
+                assert(target_actor_handles@.values().contains(*handles));
+            }
+//@after 0 `for handles in target_actor_handles.values()`
+        proof {
+            assert forall|id: TargetId| target_actor_handles@.contains_key(id) implies tr.term_sent.contains(old(tr).term_of[(#[trigger] target_actor_handles@[id]).termination_sender.chan()]) by {
+                let v = target_actor_handles@[id];
+                assert(target_actor_handles@.values().contains(v));
+            }
+        }
+//@end
+}
+
+// ===========================================================================
+// the relay loops
+// ===========================================================================
+/// one firing of a relay `select!` (R3): a termination signal, or the next message of the targets'
+/// output channel.  Assumed (A-chan): the channel yields `Some` (TargetActors holds a sender);
+/// assumed (closure, DESIGN §8 / C09.closed): an actor only addresses targets of the resolved map.
+#[verifier::external_body]
+pub fn select_relay(term: &Receiver<TerminationMessage>, out: &Receiver<TargetActorOutputMessage>, Tracked(tr): Tracked<&mut Trace>) -> (e: REv)
+    ensures
+        *final(tr) == (Trace { inlog: old(tr).inlog.push(e), term_seen: old(tr).term_seen || e is Term, ..*old(tr) }),
+        e matches REv::Out(m) ==> m is Some,
+        e matches REv::Out(Some(TargetActorOutputMessage::MessageActor { dest: ActorId::Target(t), .. })) ==> old(tr).all.contains(t),
+{ unimplemented!() }
+
+#[verifier::external_body]
+pub fn slice_to_set(v: &[TargetId]) -> (r: HashSet<TargetId>)
+    ensures r@ == v@.to_set(),
+{ unimplemented!() }
+
+//@fn src/engine/mod.rs watch ret=r
+//@split-arms
+//@attr #[verifier::exec_allows_no_decreases_clause]
+//@replace `mut termination_events: Receiver<TerminationMessage>` => `termination_events: Receiver<TerminationMessage>` rule=R15 why=`receiver only polled inside select! (R3)`
+//@replace `mut target_actor_output_events: Receiver<TargetActorOutputMessage>` => `target_actor_output_events: Receiver<TargetActorOutputMessage>` rule=R15 why=`receiver only polled inside select! (R3)`
+//@contract
+    requires
+        old(target_actors).wf(*old(tr)),
+        old(tr).inlog.len() == 0,
+    ensures
+        final(target_actors).wf_handles(*final(tr)),
+        /*[C10.signal,C07.watch]*/ r is Ok ==> final(tr).term_seen,
+        /*[C06.relay-watch,C04.relay-forward]*/ r is Ok ==> final(tr).delivered == old(tr).delivered + forwards_of(final(tr).inlog),
+//@pre
+        let ghost d0 = tr.delivered;
+//@loop 0
+            invariant
+                target_actors.wf(*tr),
+                /*[C06.relay-watch,C04.relay-forward,C01.relay]*/ tr.delivered == d0 + forwards_of(tr.inlog),
+            ensures
+                /*[C10.signal]*/ tr.term_seen,
+//@select 0 enum=REv oracle=`select_relay(&termination_events, &target_actor_output_events)`
+//@arm Term `termination_events.next().fuse()`
+//@arm Out `target_actor_output_events.next().fuse()`
+            let ghost log0 = tr.inlog;
+            //---
+            proof {
+                assert(tr.inlog.drop_last() == log0);
+                reveal_with_fuel(forwards_of, 2);
+            }
+//@end
+
+//@fn src/engine/mod.rs execute_once ret=r
+//@split-arms
+//@replace `mut termination_events: Receiver<TerminationMessage>` => `termination_events: Receiver<TerminationMessage>` rule=R15 why=`receiver only polled inside select! (R3)`
+//@replace `mut target_actor_output_events: Receiver<TargetActorOutputMessage>` => `target_actor_output_events: Receiver<TargetActorOutputMessage>` rule=R15 why=`receiver only polled inside select! (R3)`
+//@replace `root_target_ids.iter().cloned().collect::<HashSet<_>>()` => `slice_to_set(root_target_ids)` rule=R13 why=`iterator adapter chain iter().cloned().collect() into a HashSet -> prelude stub slice_to_set (ensures r@ == v@.to_set())`
+//@attr #[verifier::exec_allows_no_decreases_clause]
+//@contract
+    requires
+        old(target_actors).wf(*old(tr)),
+        old(tr).inlog.len() == 0, !old(tr).term_seen, !old(tr).awaited_signal,
+    ensures
+        final(target_actors).wf_handles(*final(tr)),
+        /*[C04.relay-forward,C01.relay]*/ r is Ok ==> final(tr).delivered == old(tr).delivered + forwards_of(final(tr).inlog),
+        /*[C07.once]*/ saw_error(final(tr).inlog) ==> r is Err,
+        /*[C04.exit]*/ r is Ok ==> final(tr).term_seen || (roots_left(root_target_ids@.to_set(), final(tr).inlog, ExecutionKind::Build).len() == 0 && roots_left(root_target_ids@.to_set(), final(tr).inlog, ExecutionKind::Service).len() == 0),
+        /*[C11.keepalive]*/ r is Ok && !final(tr).term_seen ==> actual_roots(final(tr).inlog).len() == 0,
+        /*[C11.keepalive]*/ final(tr).awaited_signal ==> actual_roots(final(tr).inlog).len() > 0,
+//@pre
+        broadcast use group_keys;
+        broadcast use vstd::std_specs::hash::group_hash_axioms;
+        let ghost d0 = tr.delivered;
+        let ghost roots = root_target_ids@.to_set();
+//@loop 0
+            invariant
+                target_actors.wf(*tr),
+                roots == root_target_ids@.to_set(),
+                /*[C04.relay-forward,C01.relay]*/ tr.delivered == d0 + forwards_of(tr.inlog),
+                /*[C04.root]*/ unavailable_root_builds@ == roots_left(roots, tr.inlog, ExecutionKind::Build),
+                /*[C04.root]*/ unavailable_root_services@ == roots_left(roots, tr.inlog, ExecutionKind::Service),
+                /*[C11.actual-root]*/ service_root_targets@ == actual_roots(tr.inlog),
+                /*[C10.signal]*/ termination_event_received == tr.term_seen,
+                /*[C07.once]*/ !saw_error(tr.inlog),
+                !tr.awaited_signal,
+//@loopbody
+            broadcast use group_keys;
+            broadcast use vstd::std_specs::hash::group_hash_axioms;
+//@select 0 enum=REv oracle=`select_relay(&termination_events, &target_actor_output_events)`
+//@arm Term `termination_events.next().fuse()`
+//@arm Out `target_actor_output_events.next().fuse()`
+            let ghost log0 = tr.inlog;
+            //---
+            proof {
+                assert(tr.inlog.drop_last() == log0);
+                reveal_with_fuel(forwards_of, 2);
+                reveal_with_fuel(roots_left, 2);
+                reveal_with_fuel(actual_roots, 2);
+                reveal_with_fuel(saw_error, 2);
+            }
+//@end
+
+//@fn src/engine/mod.rs run ret=r
+//@contract
+    requires
+        old(target_actors).wf(*old(tr)),
+        old(tr).inlog.len() == 0, !old(tr).term_seen, !old(tr).awaited_signal,
+        /*[C04.nopanic]*/ forall|i: int| 0 <= i < root_target_ids@.len() ==> old(tr).all.contains(#[trigger] root_target_ids@[i]),
+    ensures
+        final(target_actors).wf_handles(*final(tr)),
+        /*[C07.once]*/ watch_option is Disabled && saw_error(final(tr).inlog) ==> r is Err,
+        /*[C07.watch,C10.signal]*/ watch_option is Enabled && r is Ok ==> final(tr).term_seen,
+        /*[C11.keepalive]*/ watch_option is Disabled && r is Ok && !final(tr).term_seen ==> actual_roots(final(tr).inlog).len() == 0,
+//@loop 0 binder=it
+        invariant
+            target_actors.wf(*tr),
+            tr.inlog.len() == 0, !tr.term_seen, !tr.awaited_signal,
+            tr.all == old(tr).all,
+            it.seq().unref() == root_target_ids@,
+            forall|i: int| 0 <= i < root_target_ids@.len() ==> tr.all.contains(#[trigger] root_target_ids@[i]),
+//@loopbody
+        proof { assert(it.seq().unref()[it.index@ as int] == *target_id); }
+//@end
+
+pub broadcast proof fn lemma_take_all<A>(s: Seq<A>)
+    ensures #[trigger] s.take(s.len() as int) == s
+{
+    assert(s.take(s.len() as int) =~= s);
+}
 
 //@include footer.rs
